@@ -9,4 +9,6 @@ import "math/rand"
 // (NewWALReaderWithOffset + PageMap) at the offsets the reader itself returned for a shorter WAL (runGrow).
 const chunkExport = false
 
-func runChunks(b []byte, ps, n int, cids *cidmap, r *rand.Rand) []chunkOut { return []chunkOut{} }
+func runChunks(b []byte, ps, n int, cids *cidmap, r *rand.Rand, all bool) []chunkOut {
+	return []chunkOut{}
+}
